@@ -3,9 +3,63 @@ import time
 
 import qrt_common
 import qsim_common
+import runner
 import vlib
 
 PID = "C03"
+
+QCLS = "class Q { public qubit q; public constructor() -> Q = default; }\n"
+# QRuntime.Injective (checked by TLC): two declarations never denote one simulator qubit while both are reachable.
+# Each probe creates a second declaration D2 by some route next to a reachable D1, flips D1 and measures D2: a fresh
+# qubit reads 0 (or the program is refused); 1 - or a 'measured' refusal caused by the other handle - means shared.
+HANDLE_PROBES = [
+    ("init_local", "function main() -> void { qubit a; qubit b = a; x(a); bit r = measure b; echo(r); bit s = measure a; }\n", "0"),
+    ("init_elem", "function main() -> void { qubit[2] reg; qubit d = reg[1]; x(reg[1]); bit r = measure d; echo(r); measure reg; }\n", "0"),
+    ("init_field", QCLS + "function main() -> void { Q o = new Q(); qubit e = o.q; x(o.q); bit r = measure e; echo(r); bit s = measure o.q; }\n", "0"),
+    ("init_call", QCLS + "function pick(Q o) -> qubit { return o.q; }\nfunction main() -> void { Q o = new Q(); qubit c = pick(o); x(o.q); "
+                  "bit r = measure c; echo(r); bit s = measure o.q; }\n", "0"),
+    ("init_param", "function f(qubit p) -> bit { qubit c = p; x(p); bit r = measure c; return r; }\nfunction main() -> void { qubit a; echo(f(a)); "
+                   "bit s = measure a; }\n", "0"),
+    ("temp_owner_arg", QCLS + "function f(qubit p) -> bit { qubit fresh; x(fresh); bit r = measure p; bit s = measure fresh; return r; }\n"
+                       "function main() -> void { echo(f(new Q().q)); }\n", "0"),
+    ("temp_owner_arg2", QCLS + "function f(qubit p, int k) -> bit { qubit[2] fresh; x(fresh[0]); x(fresh[1]); bit r = measure p; measure fresh; return r; }\n"
+                        "function main() -> void { echo(f(new Q().q, 1)); }\n", "0"),
+    ("destroyed_owner_arg", QCLS + "function g(qubit p, Q o) -> bit { destroy o; qubit fresh; x(fresh); bit r = measure p; bit s = measure fresh; return r; }\n"
+                            "function main() -> void { Q o = new Q(); echo(g(o.q, o)); }\n", "0"),
+    ("scope_recycle", QCLS + "function main() -> void { qubit a; { Q o = new Q(); x(o.q); bit t = measure o.q; } qubit b; x(a); bit r = measure b; echo(r); "
+                      "bit s = measure a; }\n", "0"),
+    # controls: ONE declaration reached by two names must be shared
+    ("param_is_same_qubit", "function f(qubit p) -> void { x(p); }\nfunction main() -> void { qubit a; f(a); bit r = measure a; echo(r); }\n", "1"),
+    ("field_via_two_refs", QCLS + "function main() -> void { Q o = new Q(); Q o2 = o; x(o.q); bit r = measure o2.q; echo(r); }\n", "1"),
+]
+
+
+def handle_probes(out):
+    known = vlib.known_for(PID)
+    jobs = [{"id": i, "src": src, "gc": "none"} for i, (_, src, _) in enumerate(HANDLE_PROBES)]
+    res = runner.run_jobs(jobs)
+    nviol = 0
+    for i, (route, src, want) in enumerate(HANDLE_PROBES):
+        r = res[i]
+        if r["status"] == "semantic":
+            continue          # refusing the second declaration is one way to keep handles distinct
+        got = None
+        what = None
+        if r["status"] != "ok":
+            what = "front end ended with %s: %s" % (r["status"], r.get("what", "").strip())
+        else:
+            sh = r["shots"][0]
+            if sh["status"] == "ok" and sh["echo"] == [want]:
+                continue
+            got = sh["echo"] if sh["status"] == "ok" else "%s: %s" % (sh["status"], sh.get("what", "").strip())
+            what = "handle route '%s': a fresh declaration must read %s; interpreter: %s" % (route, want, got)
+        hit = [f for f in known if route in f["sig"].get("routes", [])]
+        if hit:
+            out.known(hit[0], "%s (route %s)" % (hit[0]["what"], route))
+            continue
+        nviol += 1
+        out.violation(what, {"what": what, "route": route, "program": src, "result": r}, "handle_" + route)
+    return nviol
 
 
 def run(tier, seed):
@@ -20,7 +74,8 @@ def run(tier, seed):
     nsim = rep["viol_by_prop"].get(PID, 0)
     for i, v in enumerate([v for v in rep["violations"] if v["property"] == PID][:3]):
         out.violation(v["what"], {"kind": "qsim-edge", "spec_state": v["state"], "action": v["action"], "what": v["what"]}, "edge%d" % i)
-    cov = {"states": stats["exhaustive"]["distinct"] + meta["distinct"],
+    nprobe = handle_probes(out)
+    cov = {"states": stats["exhaustive"]["distinct"] + meta["distinct"], "handle_route_probes": len(HANDLE_PROBES),
            "transitions": stats["exhaustive"]["generated"] + meta["generated"],
            "traces_validated_against_impl": stats["behaviours"],
            "samples": [sample], "behaviour_stats": stats,
@@ -34,6 +89,7 @@ def run(tier, seed):
     vlib.write_evidence(PID, tier, seed, "model_checking", cov,
                         ["at most one live object per scope level in generated programs (death order of several objects of one "
                          "scope is unspecified in the implementation)",
-                         "qubit handles are not copied between variables in generated programs (see known finding on aliasing)"],
-                        time.time() - t0, len(viol) + nsim)
+                         "generated behaviours do not copy qubit handles between declarations; that route is covered by the hand-written "
+                         "handle probes (see known_findings.txt)"],
+                        time.time() - t0, len(viol) + nsim + nprobe)
     return out.finish()
